@@ -91,7 +91,9 @@ func newEmitter(c *Ctx, fi *FuncInfo) *emitter {
 }
 
 func (e *emitter) run() []emNode {
-	return normalize(e.block(e.fi.Decl.Body.List), true)
+	ns := hoistEffects(normalize(e.block(e.fi.Decl.Body.List), true))
+	renumber(ns)
+	return ns
 }
 
 func (e *emitter) block(list []ast.Stmt) []emNode {
